@@ -44,7 +44,10 @@ type Case struct {
 	Client string `json:"client"` // plain | unil | spec:<name>
 	// ClientWin (spec clients only): the spec advertises these receive windows [bidi_local, bidi_remote, uni] in KiB
 	// instead of the parrot's (which are equal per type for Chrome and far above every generated transfer)
-	ClientWin []int        `json:"client_win_kb,omitempty"`
+	ClientWin []int `json:"client_win_kb,omitempty"`
+	// Observed: "" | "log" (debug logging on, output discarded) | "trace" (Config.Tracer set on both sides, events
+	// dropped) | "both": what the endpoints do must not depend on whether anybody watches
+	Observed  string       `json:"observed,omitempty"`
 	V2        bool         `json:"v2,omitempty"`
 	RTTms     int          `json:"rtt_ms"`
 	IdleMs    int          `json:"idle_ms"`
@@ -121,6 +124,7 @@ func GenCase(t *rapid.T) Case {
 	} else if rapid.IntRange(0, 2).Draw(t, "cwin") == 0 {
 		c.ClientWin = []int{rapid.SampledFrom([]int{2, 4, 16, 64}).Draw(t, "bl"), rapid.SampledFrom([]int{2, 4, 16, 64}).Draw(t, "br"), rapid.SampledFrom([]int{2, 4, 16, 64}).Draw(t, "uw")}
 	}
+	c.Observed = rapid.SampledFrom([]string{"", "", "", "", "", "", "", "", "", "log", "trace", "both"}).Draw(t, "observed")
 	c.RTTms = rapid.SampledFrom([]int{2, 10, 30, 80, 200}).Draw(t, "rtt")
 	c.IdleMs = rapid.SampledFrom([]int{5000, 10000, 30000}).Draw(t, "idle")
 	maxSize := 256 << 10
@@ -313,6 +317,12 @@ func runCase(c Case, u *vf.Unit, trace *any) *vf.Verdict {
 	}
 	w := sim.NewWorld(time.Duration(c.RTTms)*time.Millisecond, c.Faults, c.Loss, bos)
 	defer w.Close()
+	if c.Observed == "log" || c.Observed == "both" {
+		defer sim.DebugLogging()()
+	}
+	if c.Observed != "" {
+		u.Class("observability-on")
+	}
 	wire := len(curOpt.WirePrefixes) > 0
 	observed := wire || vf.ReplayMode() // replays decode the wire so that a verdict can say what the packets carried
 	if observed {
@@ -334,6 +344,9 @@ func runCase(c Case, u *vf.Unit, trace *any) *vf.Verdict {
 	conf := func() *quic.Config {
 		q := &quic.Config{DisablePathMTUDiscovery: true, MaxIdleTimeout: idle, HandshakeIdleTimeout: hsIdle, EnableDatagrams: c.Datagrams > 0,
 			MaxIncomingStreams: 100, MaxIncomingUniStreams: 100}
+		if c.Observed == "trace" || c.Observed == "both" {
+			q.Tracer = sim.DiscardTracer
+		}
 		if c.V2 {
 			q.Versions = []quic.Version{quic.Version2}
 		}
